@@ -76,6 +76,15 @@ pub fn gen_loc(rng: &mut Rng) -> LocSpec {
 }
 
 pub fn gen_locale(rng: &mut Rng) -> String {
+    // one in six: some locale out of thousands (whatever is counted or remembered per locale sees many of them)
+    if rng.chance(1, 6) {
+        let l = |rng: &mut Rng| (b'a' + rng.below(26) as u8) as char;
+        return format!("{}{}_{}{}", l(rng), l(rng), l(rng).to_ascii_uppercase(), l(rng).to_ascii_uppercase());
+    }
+    // one in six: names that merely begin like a configured table, empty elements
+    if rng.chance(1, 5) {
+        return (*rng.pick(&["fil_PH", "dea_XX", "enx", "frr_FR", "ab_c", "_US", "_", "de_", "__", "a", "es_MX_", "日本_JP"])).to_string();
+    }
     (*rng.pick(&["de_DE", "de", "en_US", "en", "fr_FR", "fr", "xx_YY", "", "a_b_c", "es_MX", "de_AT", "EN_us", "de_DE_u_co_phonebk", "zh_Hant_TW", "de_DE_u_co"])).to_string()
 }
 
